@@ -40,6 +40,8 @@ def c01_jobs(tier, prop=1):
         J.append(mjob('m-n3-l2-k3-replay-saveload', prop, N=3, L=2, K=3, MANUAL=1, OPS=1 | 16 | 32 | 64 | 128, timeout=T, **dict(HIST, **SER)))
         J.append(mjob('m-n4-ind', prop, N=4, K=1, INDUCTIVE=1, OPS=ALLOPS, timeout=T, **HIST))
         J.append(mjob('m-n3-ind-head', prop, N=3, K=1, INDUCTIVE=1, HEAD=1, OPS=ALLOPS, timeout=T))
+        J.append(mjob('m-n3-l2-k2-injected', prop, N=3, L=2, K=2, INJECT=1, OPS=CORE, timeout=T))
+        J.append(mjob('m-n2-l2-k2-injected-head-manual', prop, N=2, L=2, K=2, INJECT=1, HEAD=1, MANUAL=1, OPS=CORE | 128, timeout=T))
     else:
         for n in (1, 2, 3, 4, 5):
             J.append(mjob('m-n%d-k4' % n, prop, N=n, K=4, OPS=CORE, timeout=T))
@@ -54,6 +56,9 @@ def c01_jobs(tier, prop=1):
         J.append(mjob('m-n3-k3-payload', prop, N=3, K=3, PAYLOAD=5, OPS=CORE, timeout=T))
         J.append(mjob('m-n3-k4-replay-saveload', prop, N=3, K=4, MANUAL=1, OPS=1 | 16 | 32 | 64 | 128, timeout=T, **dict(HIST, **SER)))
         J.append(mjob('m-n3-k3-all', prop, N=3, K=3, MANUAL=1, HEAD=1, PAYLOAD=3, OPS=ALLOPS, timeout=T, **dict(HIST, **SER)))
+        J.append(mjob('m-n3-k3-injected', prop, N=3, K=3, INJECT=1, OPS=CORE, timeout=T))
+        J.append(mjob('m-n3-k3-injected-head-manual-payload', prop, N=3, K=3, INJECT=1, HEAD=1, MANUAL=1, PAYLOAD=5, OPS=CORE | 128, timeout=T, **HIST))
+        J.append(mjob('m-n4-ind-injected', prop, N=4, K=1, INJECT=1, INDUCTIVE=1, OPS=ALLOPS, timeout=T, **HIST))
         for n in (1, 2, 3, 4, 5):
             J.append(mjob('m-n%d-ind' % n, prop, N=n, K=1, INDUCTIVE=1, OPS=ALLOPS, timeout=T, **HIST))
             J.append(mjob('m-n%d-ind-head-manual' % n, prop, N=n, K=1, INDUCTIVE=1, HEAD=1, MANUAL=1, OPS=ALLOPS, timeout=T))
@@ -219,8 +224,11 @@ def c10_jobs(tier):
             j = kj('plan-hist-cap%d-k%d' % (cap, k), cap, MODE=1, KSTEPS=k); j.unwind = max(j.unwind, k + 3); J.append(j)
             if cap <= 2 or tier != 'quick':
                 j = kj('plan-hist-manual-cap%d-k%d' % (cap, k + 1), cap, MODE=1, KSTEPS=k + 1, MANUAL=1); j.unwind = max(j.unwind, k + 4); J.append(j)
+    j = kj('plan-hist-serial-cap2-p1-k4', 2, MODE=1, PAYLOAD=1, SERIAL=1, KSTEPS=4); j.unwind = 8; J.append(j)
     if tier != 'quick':
         j = kj('plan-hist-cap3-pay', 3, MODE=1, PAYLOAD=1, KSTEPS=6); j.unwind = 10; J.append(j)
+        j = kj('plan-hist-serial-manual-cap3-p1-k6', 3, MODE=1, PAYLOAD=1, SERIAL=1, MANUAL=1, KSTEPS=6); j.unwind = 10; J.append(j)
+        j = kj('plan-hist-serial-cap2-p0-k5', 2, MODE=1, PAYLOAD=0, SERIAL=1, KSTEPS=5); j.unwind = 9; J.append(j)
     return J
 
 NSET = (1, 2, 3, 4, 5, 7, 8, 9, 15, 16, 17, 31, 32, 33, 63, 64, 65, 127, 128, 129, 254, 255)
@@ -283,7 +291,10 @@ def c08_jobs(tier, prop=8):
         J.append(pjob('plan-n2-cap2-ext-k3', prop, cap=2, K=3, prefix=0, limit=1, timeout=T, NST=2, OPS=EXT, EDITS=0))
         J.append(pjob('plan-n2-cap1-upd-ext-k2-l1-edits', prop, cap=1, K=2, prefix=1, limit=1, timeout=T, NST=2, OPS=UPD | EXT, EDITS=1))
         J.append(pjob('plan-n2-cap2-upd-l1-payload', prop, cap=2, K=1, prefix=1, payload=1, limit=1, timeout=T, NST=2, OPS=UPD, EDITS=0))
+        J.append(pjob('plan-n2-cap1-manual-reactivate-payload-k2', prop, cap=1, K=2, prefix=1, payload=1, limit=1, timeout=T, NST=2, OPS=UPD | EXT, EDITS=0, MANUAL=1))
     else:
+        J.append(pjob('plan-n2-cap2-manual-reactivate-payload-k3', prop, cap=2, K=3, prefix=1, payload=1, limit=1, timeout=T, NST=2, OPS=UPD | EXT, EDITS=0, MANUAL=1))
+        J.append(pjob('plan-n2-cap1-manual-reactivate-k3', prop, cap=1, K=3, prefix=1, payload=0, limit=1, timeout=T, NST=2, OPS=UPD | EXT, EDITS=1, MANUAL=1))
         for cap in (1, 2, 3, 4, 5):
             J.append(pjob('plan-n3-cap%d-upd-l2-edits' % cap, prop, cap=cap, K=1, prefix=1, limit=2, timeout=T, NST=3, OPS=UPD, EDITS=1, WITNESS_EXTRA=1))
         for cap in (1, 2, 3):
